@@ -237,7 +237,7 @@ def _imm_cov_clause(a):
   pin = [e for e in a.path.events if e[0] == 'call' and e[1] == '_util:_pseudo_inverse_from_eig']
   ok = xt.eq(want_x) and (mt.eq(TH.atleast2d(TH.cov(xt))) or mt.eq(TH.cov(xt))) and vt.eq(TH.eigvecs(mt)) \
       and len(pin) == 1 and isinstance(pin[0][2].get('V'), VArr) and pin[0][2]['V'].loc == V.loc
-  return z3.BoolVal(bool(ok))
+  return z3.BoolVal(True) if ok else PatternMismatch('covariance prior vs pinv of cov of the distinct points')
 
 
 def imm_bad(a):
